@@ -121,16 +121,18 @@ Lemma pipeline_safe : safe_proto (Pown_pipeline false). Proof. apply certified. 
 Lemma reuse_fixed_safe : safe_proto Pown_reuse_fixed.   Proof. apply certified. vm_compute. reflexivity. Qed.
 Lemma quic_safe : safe_proto Pown_quic.         Proof. apply certified. vm_compute. reflexivity. Qed.
 Lemma cache_safe : safe_proto (Pown_cache true). Proof. apply certified. vm_compute. reflexivity. Qed.
+Lemma doh_safe : safe_proto (Pown_doh false).   Proof. apply certified. vm_compute. reflexivity. Qed.
 
 (* the recycling protocols as they are in the tree after the D14 fix *)
 Definition protocols : list proto :=
-  [Pown_udp; Pown_tcp; Pown_http; Pown_gnet true; Pown_pipeline false; Pown_reuse_fixed; Pown_quic; Pown_cache true].
+  [Pown_udp; Pown_tcp; Pown_http; Pown_gnet true; Pown_pipeline false; Pown_reuse_fixed; Pown_quic; Pown_cache true;
+   Pown_doh false].
 
 Lemma protocols_safe P : In P protocols -> safe_proto P.
 Proof.
   unfold protocols. cbn. intros H.
   repeat (destruct H as [<-|H]; [first [exact udp_safe|exact tcp_safe|exact http_safe|exact gnet_safe|exact pipeline_safe
-                                        |exact reuse_fixed_safe|exact quic_safe|exact cache_safe]|]).
+                                        |exact reuse_fixed_safe|exact quic_safe|exact cache_safe|exact doh_safe]|]).
   contradiction.
 Qed.
 
@@ -242,3 +244,26 @@ Proof.
   destruct (own_run (Pown_pipeline true) (own_init (Pown_pipeline true)) (pipe_sched 0)) as [s|] eqn:E; [|vm_compute in E; discriminate].
   exists s. split; [eapply run_reach; eauto|]. vm_compute in E. inversion E. reflexivity.
 Qed.
+
+(* ---------------- DoH: rawQuery must not come from the pool ---------------- *)
+(* caller: copy the query, build rawQuery, release the copy, start the round-trip goroutine; the context ends while the dial
+   is pending; the select takes the Done arm; the deferred ReleaseBuf(rawQuery) of the pooled variant runs; [another request
+   takes the buffer;] the connection becomes ready and net/http writes the request from the released buffer *)
+Definition doh_schedule : list pick := doh_sched true 1.
+Definition doh_schedule_env : list pick := doh_sched true 2.
+
+Lemma doh_pooled_refuted :
+  (exists s, own_run (Pown_doh true) (own_init (Pown_doh true)) doh_schedule = Some s /\ reach (Pown_doh true) s /\ viol s = 1) /\
+  (exists s, own_run (Pown_doh true) (own_init (Pown_doh true)) doh_schedule_env = Some s /\ reach (Pown_doh true) s /\ viol s = 2).
+Proof.
+  split.
+  - destruct (own_run (Pown_doh true) (own_init (Pown_doh true)) doh_schedule) as [s|] eqn:E; [|vm_compute in E; discriminate].
+    exists s. split; auto. split; [eapply run_reach; eauto|]. vm_compute in E. inversion E. reflexivity.
+  - destruct (own_run (Pown_doh true) (own_init (Pown_doh true)) doh_schedule_env) as [s|] eqn:E; [|vm_compute in E; discriminate].
+    exists s. split; auto. split; [eapply run_reach; eauto|]. vm_compute in E. inversion E. reflexivity.
+Qed.
+
+(* the same orderings on the code as it is (make-allocated rawQuery handed over to the goroutine) are harmless *)
+Lemma doh_current_same_schedules :
+  doh_verdict false 0 = Some 0 /\ doh_verdict false 1 = Some 0 /\ doh_verdict false 2 = Some 0 /\ doh_verdict false 3 = Some 0.
+Proof. vm_compute. auto. Qed.
